@@ -42,12 +42,21 @@ class Spec(core.PropSpec):
         pre = []
         for _ in range(rf.choice([1, 1, 2, 3])):
             pre.append(dict(k=rf.randint(1, 4), field=rf.choice(["start_epoch", "start_update", "start_sample"])))
+        rc = st("company")
+        company = T.gen_company(rc, w) if w["configs"] and rc.random() < 0.25 else None
+        if company and rc.random() < 0.5:
+            company.update(B=w["B"], budget=list(w["budget"]), consume="interleaved")  # the uninterrupted twin, taking turns
+        overlap = [[rc.randint(0, 12), rc.randint(1, 4)]] if rc.random() < 0.15 else None
         return dict(world=w, preemptions=pre, all_checkpoints=rf.random() < 0.5, foreign_epoch=rf.choice([None, None, 97, 0]),
-                    reiterate=rf.random() < 0.25)
+                    reiterate=rf.random() < 0.25, company=company, overlap=overlap)
 
     def shrink_candidates(self, plan):
         if plan.get("all_checkpoints"):
             yield dict(plan, all_checkpoints=False)
+        if plan.get("company"):
+            yield dict(plan, company=None)
+        if plan.get("overlap"):
+            yield dict(plan, overlap=None)
         yield from T.world_candidates(plan)
         yield from super().shrink_candidates(plan)
 
@@ -109,7 +118,12 @@ class Spec(core.PropSpec):
             if len(att) > 1:
                 out.count("fault:preemption_in_chain")
             try:
-                res, term = T.run_sampler(w, start={field: val}, cap=len(suffix) + 50, foreign_epoch=plan.get("foreign_epoch"))
+                res, term = T.run_sampler(w, start={field: val}, cap=len(suffix) + 50, foreign_epoch=plan.get("foreign_epoch"),
+                                          company=plan.get("company"), overlap=plan.get("overlap"))
+                if plan.get("company"):
+                    out.count("fault:config_objects_shared_with_second_sampler")
+                if plan.get("overlap"):
+                    out.count("fault:overlapping_iteration_of_resumed_object")
                 res = list(res)
                 if plan.get("reiterate") and term:
                     s_obj, s_log = T.run_sampler.last
